@@ -536,6 +536,9 @@ func (w *World) cfgStr(st dhcp.VerifState) string {
 	return fmt.Sprintf("%d,%d,%d,%s,%s", st.Mode, u32(w.Cfg.Host), u32(w.Cfg.Router), subnetStr(st.Net1), subnetStr(st.Net2))
 }
 
+// Dump is dump for the other runners (harness/c08dhcp: raw payloads).
+func (w *World) Dump() (state string, cfg string, bad string) { return w.dump() }
+
 // dump renders the implementation state (lease table, cursors, session oracles) in the model's syntax.
 func (w *World) dump() (state string, cfg string, bad string) {
 	st := w.H.VerifDump()
